@@ -61,6 +61,42 @@ Theorem C12_every_class_reachable : forall ct, In ct class_tags -> reachable ct 
 Proof. exact all_reachable. Qed.
 Print Assumptions C12_every_class_reachable.
 
+(* ------------------------------------------------------------------ (B') access paths in the model
+   children / parent / root / anything an XPath, get_elements, get_element, typed finder or traverse returns / clone:
+   whatever the history and whatever the class of the receivers on the way, the wrapper obtained has the class the
+   registry gives to the tag of ITS OWN node -- for every registry, every document tree, every history. *)
+Theorem C12_access_paths_preserve_class : forall reg doc (l : list access) w w',
+  consistent reg doc w -> access_run reg doc w l = Some w' -> consistent reg doc w'.
+Proof. exact access_run_consistent. Qed.
+Print Assumptions C12_access_paths_preserve_class.
+
+Theorem C12_access_paths_agree : forall reg doc l1 l2 w1 w2 a b,
+  consistent reg doc w1 -> consistent reg doc w2 ->
+  access_run reg doc w1 l1 = Some a -> access_run reg doc w2 l2 = Some b -> w_pos a = w_pos b -> w_cls a = w_cls b.
+Proof. exact access_paths_agree. Qed.
+Print Assumptions C12_access_paths_agree.
+
+(* ... on the generated registry: the class is [dispatch] of the node's tag -- the function the per-path observations of
+   the correspondence are compared with *)
+Theorem C12_access_paths_dispatch : forall doc l w w', consistent model_registry doc w -> access_run model_registry doc w l = Some w' ->
+  exists n, node_at doc (w_pos w') = Some n /\ w_cls w' = dispatch (xtag n).
+Proof. exact access_paths_dispatch. Qed.
+Print Assumptions C12_access_paths_dispatch.
+
+(* the model's assumption about the sources -- wrappers are made only by Element.from_tag / Element.from_tag_for_clone
+   (base class), by self.from_tag in clone, and by the two constructions inside those factories -- checked on the
+   generated table of wrapper-creation sites (bound: wrap_sites, every call site of the package) *)
+Theorem C12_wrap_sites_as_modelled : forall x, In x wrap_sites -> site_ok x = true.
+Proof. exact wrap_sites_modelled. Qed.
+Print Assumptions C12_wrap_sites_as_modelled.
+
+Example C12_example_access :
+  let doc := XNode "{urn:oasis:names:tc:opendocument:xmlns:table:1.0}table"
+               [XNode "{urn:oasis:names:tc:opendocument:xmlns:table:1.0}table-column" [];
+                XNode "{urn:oasis:names:tc:opendocument:xmlns:table:1.0}table-row" [XNode "{urn:oasis:names:tc:opendocument:xmlns:table:1.0}table-cell" []]] in
+  option_map w_cls (access_run model_registry doc (mkW "Table" []) [ASelect [1; 0]; AParent; AClone; AChild 0; ARoot; AChild 0]) = Some "Column".
+Proof. vm_compute. reflexivity. Qed.
+
 (* ------------------------------------------------------------------ (C) generic attribute properties *)
 
 Theorem C12_attr_get_set : forall name family self_family v a, blocked family self_family = false ->
@@ -95,6 +131,10 @@ Print Assumptions C12_attr_string_true_reads_as_bool.
 Theorem C12_attr_other_objects_read_as_str : forall s t, s <> "true" -> s <> "false" -> decode (encode (VOther s t)) = VStr s.
 Proof. exact decode_encode_other. Qed.
 Print Assumptions C12_attr_other_objects_read_as_str.
+
+Theorem C12_attr_ints_read_as_str : forall z s, s <> "true" -> s <> "false" -> decode (encode (VNum z s)) = VStr s.
+Proof. exact decode_encode_num. Qed.
+Print Assumptions C12_attr_ints_read_as_str.
 
 Theorem C12_attr_other_family_inert : forall n fam sf v a, blocked fam sf = true ->
   setter n fam sf v a = a /\ getter n fam sf a = VNone.
